@@ -419,4 +419,175 @@ theorem applyOp_rel (cfg : Cfg) {d : Dialect} (hd : DialectRepr d) {s s' : MStat
       (t' := { s2' with envStack := envs', envLen := s2'.envLen - 1 })
       ⟨hs2.val, henvs, hs2.valLen, by simp [hs2.envLen], hs2.ops, hs2.guards, hs2.allocs, hs2.ctr⟩ ho hol _ _
 
+/-! ### `exit_guard`, the loop, `run_program` -/
+
+theorem exitGuard_rel {s s' : MState} (h : StateEraseEq s s') (currentCost : Nat) :
+    MR StepRel (exitGuard s currentCost) (exitGuard s' currentCost) := by
+  unfold exitGuard
+  rw [h.guards]
+  cases s'.softforkStack with
+  | nil => exact .err rfl
+  | cons g rest =>
+    simp only []
+    split
+    · exact .err rfl
+    · have hv := h.val
+      generalize s.valStack = vs at hv ⊢
+      generalize s'.valStack = vs' at hv ⊢
+      cases hv with
+      | nil => exact .err rfl
+      | cons _ ht =>
+        simp only []
+        refine MR.bind (R := StateEraseEq) (push_rel ?_ Req.nil) ?_
+        · exact ⟨ht, h.env, by simp [h.valLen], h.envLen, h.ops, rfl, h.allocs, by simp [h.ctr]⟩
+        · intro a a' ha; exact .ok ⟨rfl, ha⟩
+
+/-- **one step of the main loop preserves the simulation** -/
+theorem stepOp_rel (cfg : Cfg) {d : Dialect} (hd : DialectRepr d) {s s' : MState} (h : StateEraseEq s s')
+    (op : Operation) (cost em : Nat) :
+    MR StepRel (stepOp cfg d s op cost em) (stepOp cfg d s' op cost em) := by
+  cases op with
+  | Apply => exact applyOp_rel cfg hd h _ _
+  | ExitGuard => exact exitGuard_rel h _
+  | Cons => exact consOp_rel h
+  | SwapEval => exact swapEvalOp_rel cfg hd h
+  | RestoreAllocator =>
+    simp only [stepOp]
+    rw [h.allocs]
+    split
+    · exact .err rfl
+    · have hv := h.val
+      generalize s.valStack = vs at hv ⊢
+      generalize s'.valStack = vs' at hv ⊢
+      cases hv with
+      | nil => exact .err rfl
+      | cons hx ht =>
+        simp only [List.isEmpty_cons, Bool.false_eq_true, if_false]
+        exact .ok ⟨rfl, ⟨.cons hx ht, h.env, h.valLen, h.envLen, h.ops, h.guards, by simp [h.allocs], h.ctr⟩⟩
+
+/-- outcomes of the whole loop: `none` (out of fuel) on either side is related to anything -/
+def LoopRel : Option (M (Nat × MState)) → Option (M (Nat × MState)) → Prop
+  | some r, some r' => MR StepRel r r'
+  | _, _ => True
+
+theorem runLoop_rel (cfg : Cfg) {d : Dialect} (hd : DialectRepr d) (maxCost fuel : Nat) :
+    ∀ {s s' : MState}, StateEraseEq s s' → ∀ cost : Nat,
+      LoopRel (runLoop cfg d maxCost fuel s cost) (runLoop cfg d maxCost fuel s' cost) := by
+  induction fuel with
+  | zero => intro s s' _ cost; simp [runLoop_zero, LoopRel]
+  | succ n ih =>
+    intro s s' h cost
+    rw [runLoop_succ, runLoop_succ]
+    have hem : effMax maxCost s = effMax maxCost s' := by simp [effMax, h.guards]
+    rw [hem]
+    unfold loopBody
+    split
+    · exact .err rfl
+    · rw [h.ops]
+      cases hops : s'.opStack with
+      | nil => exact .ok ⟨rfl, h⟩
+      | cons op ops =>
+        simp only []
+        have hst := stepOp_rel cfg hd (s := { s with opStack := ops }) (s' := { s' with opStack := ops })
+          ⟨h.val, h.env, h.valLen, h.envLen, rfl, h.guards, h.allocs, h.ctr⟩ op cost (effMax maxCost s')
+        revert hst
+        generalize stepOp cfg d { s with opStack := ops } op cost (effMax maxCost s') = r
+        generalize stepOp cfg d { s' with opStack := ops } op cost (effMax maxCost s') = r'
+        intro hst
+        cases hst with
+        | ok hr =>
+          rename_i a a'
+          obtain ⟨c, t⟩ := a; obtain ⟨c', t'⟩ := a'
+          obtain ⟨hc, ht⟩ := hr
+          simp only at hc ht ⊢
+          subst hc
+          exact ih ht _
+        | err hk => exact .err hk
+        | unsupL =>
+          cases r' with
+          | error e => exact .unsupL
+          | ok a =>
+            simp only []
+            cases runLoop cfg d maxCost n a.2 (cost + a.1) with
+            | none => trivial
+            | some x => exact .unsupL
+        | unsupR =>
+          cases r with
+          | error e => exact .unsupR
+          | ok a =>
+            simp only []
+            cases runLoop cfg d maxCost n a.2 (cost + a.1) with
+            | none => trivial
+            | some x => exact .unsupR
+
+/-- **C03, machine level (`eval_retag`)**: two runs of `run_program` on erase-equal well-formed
+programs and environments, from the same counters and with the same fuel, that both produce an
+answer produce the same answer up to representation tags — same cost, erase-equal values, equal
+counters (heap size included), or the same kind of error. -/
+theorem eval_retag (cfg : Cfg) {d : Dialect} (hd : DialectRepr d) (fuel : Nat) (c0 : Ctr)
+    {program program' env env' : Val} (hp : Req program program') (he : Req env env') (maxCost : Nat)
+    {r r' : OpRes}
+    (hr : runProgram cfg d fuel c0 program env maxCost = some r)
+    (hr' : runProgram cfg d fuel c0 program' env' maxCost = some r') :
+    ResEraseEq true r r' := by
+  unfold runProgram at hr hr'
+  simp only [] at hr hr'
+  cases hg : c0.addGhostAtom 1 with
+  | error e =>
+    rw [hg] at hr hr'
+    cases hr; cases hr'; exact rfl
+  | ok c =>
+    rw [hg] at hr hr'
+    simp only [] at hr hr'
+    have h0 : StateEraseEq ({ ctr := c } : MState) ({ ctr := c } : MState) :=
+      ⟨.nil, .nil, rfl, rfl, rfl, rfl, rfl, rfl⟩
+    have hev := evalPair_rel cfg hd h0 hp he
+    revert hev hr hr'
+    generalize evalPair cfg d { ctr := c } program env = x
+    generalize evalPair cfg d { ctr := c } program' env' = x'
+    intro hr hr' hev
+    cases hev with
+    | err hk => cases hr; cases hr'; exact hk
+    | unsupL => first | cases hr | cases hr'
+    | unsupR => first | cases hr' | cases hr
+    | ok hst =>
+      rename_i a a'
+      obtain ⟨k, s⟩ := a; obtain ⟨k', s'⟩ := a'
+      obtain ⟨hk, hs⟩ := hst
+      simp only at hk hs hr hr'
+      subst hk
+      have hl := runLoop_rel cfg hd (if maxCost == 0 then U64_MAX else maxCost) fuel hs k
+      revert hl hr hr'
+      generalize runLoop cfg d _ fuel s k = y
+      generalize runLoop cfg d _ fuel s' k = y'
+      intro hr hr' hl
+      match y, y', hl with
+      | none, _, _ => first | cases hr | cases hr'
+      | some _, none, _ => first | cases hr' | cases hr
+      | some _, some _, .err hk => cases hr; cases hr'; exact hk
+      | some _, some _, .unsupL => first | cases hr | cases hr'
+      | some _, some _, .unsupR => first | cases hr' | cases hr
+      | some _, some _, .ok hst =>
+        rename_i a a'
+        obtain ⟨k1, s1⟩ := a; obtain ⟨k1', s1'⟩ := a'
+        obtain ⟨hk1, hs1⟩ := hst
+        simp only at hk1 hs1 hr hr'
+        subst hk1
+        have hpop := pop_rel hs1
+        revert hpop hr hr'
+        generalize s1.pop = z
+        generalize s1'.pop = z'
+        intro hr hr' hpop
+        cases hpop with
+        | err hk => cases hr; cases hr'; exact hk
+        | unsupL => first | cases hr | cases hr'
+        | unsupR => first | cases hr' | cases hr
+        | ok hv =>
+          rename_i a a'
+          obtain ⟨v, s2⟩ := a; obtain ⟨v', s2'⟩ := a'
+          obtain ⟨hv, hs2⟩ := hv
+          simp only at hv hs2 hr hr'
+          cases hr; cases hr'
+          exact ⟨rfl, hv.2.2, by rw [hs2.ctr], by rw [hs2.ctr], by rw [hs2.ctr], fun _ => by rw [hs2.ctr]⟩
+
 end Clvm.Interp
